@@ -4,6 +4,7 @@ package main
 
 import (
 	"fmt"
+	"go/constant"
 	"go/token"
 	"go/types"
 	"strings"
@@ -13,10 +14,116 @@ import (
 
 func init() { register("C10", checkC10) }
 
-// map ranges that were read and justified by hand; keyed by function, the
-// structural rule "collect keys then sort" needs no entry here.
-var mapRangeAllow = map[string]string{
-	"x/ecocredit/v3/base/keeper.BatchSupplyInvariant": "range basketBalances: each iteration only adds into a per-batch accumulator (commutative, exact SafeAddBalance) or returns broken=true; the boolean verdict is order-independent and the text only feeds the invariant panic message",
+// invariantOnly: fn is reachable from the modules' RegisterInvariants and from no message handler, block
+// hook, genesis function or message validator: nothing it computes reaches state, events or results —
+// only the (message, broken) pair of the crisis module.
+var invariantOnlyMemo = map[*Model]map[*ssa.Function]bool{}
+
+func invariantOnly(m *Model, g *Graph, fn *ssa.Function) bool {
+	set, ok := invariantOnlyMemo[m]
+	if !ok {
+		var inv, other []*ssa.Function
+		for _, r := range append(m.ConsensusRoots(), msgValidationRoots(m)...) {
+			if strings.Contains(r.Name(), "RegisterInvariants") {
+				inv = append(inv, r)
+			} else {
+				other = append(other, r)
+			}
+		}
+		set = map[*ssa.Function]bool{}
+		oc := g.Closure(other)
+		for f := range g.Closure(inv) {
+			if !oc[f] {
+				set[f] = true
+			}
+		}
+		invariantOnlyMemo[m] = set
+	}
+	for f := fn; f != nil; f = f.Parent() {
+		if set[f] {
+			return true
+		}
+	}
+	return false
+}
+
+// slotPerKeyLoop: the body of the map range writes map entries only under the range's own key (each
+// iteration has its own slot, so no iteration sees another's write), never returns a constant false
+// verdict, and calls no ORM writer or bank mutator.
+func slotPerKeyLoop(r *ssa.Range) (bool, string) {
+	var next *ssa.Next
+	for _, x := range *r.Referrers() {
+		if n, ok := x.(*ssa.Next); ok {
+			next = n
+		}
+	}
+	if next == nil {
+		return false, "no Next"
+	}
+	var key ssa.Value
+	for _, x := range *next.Referrers() {
+		if ex, ok := x.(*ssa.Extract); ok && ex.Index == 1 {
+			key = ex
+		}
+	}
+	head := next.Block()
+	loop := map[*ssa.BasicBlock]bool{head: true}
+	var back func(b *ssa.BasicBlock)
+	back = func(b *ssa.BasicBlock) {
+		if loop[b] {
+			return
+		}
+		loop[b] = true
+		for _, p := range b.Preds {
+			back(p)
+		}
+	}
+	for _, p := range head.Preds {
+		if head.Dominates(p) {
+			back(p)
+		}
+	}
+	// blocks that leave the loop with a return are part of the iteration too
+	for b := range loop {
+		for _, s := range b.Succs {
+			if !loop[s] && len(s.Instrs) > 0 {
+				if _, isRet := s.Instrs[len(s.Instrs)-1].(*ssa.Return); isRet && s != head && len(s.Preds) == 1 {
+					loop[s] = true
+				}
+			}
+		}
+	}
+	for b := range loop {
+		for _, in := range b.Instrs {
+			switch y := in.(type) {
+			case *ssa.MapUpdate:
+				if key == nil || y.Key != key {
+					return false, "a map entry is written under a key other than the iteration's own"
+				}
+			case *ssa.Return:
+				for _, rv := range y.Results {
+					if cst, isC := rv.(*ssa.Const); isC && cst.Value != nil && cst.Value.Kind() == constant.Bool && !constant.BoolVal(cst.Value) {
+						return false, "a 'not broken' verdict is returned from inside the loop"
+					}
+				}
+			case ssa.CallInstruction:
+				cc := y.Common()
+				name := ""
+				if cc.IsInvoke() {
+					name = cc.Method.Name()
+				} else if sc := cc.StaticCallee(); sc != nil {
+					name = sc.Name()
+				}
+				switch name {
+				case "Insert", "InsertReturningID", "Update", "Save", "Delete", "DeleteBy", "DeleteRange", "SendCoins", "SendCoinsFromModuleToAccount", "SendCoinsFromAccountToModule", "MintCoins", "BurnCoins", "Set", "SetDenomMetaData":
+					if cc.IsInvoke() {
+						return false, "the loop calls " + name + " (a state write)"
+					}
+				}
+			}
+		}
+	}
+	return true, ""
 }
 
 func msgValidationRoots(m *Model) []*ssa.Function {
@@ -161,12 +268,14 @@ func lintDeterminism(c *Ctx, m *Model, g *Graph, fn *ssa.Function, total map[str
 				}
 				total["map_ranges"]++
 				key := fk
-				if why, ok := mapRangeAllow[shortFnNoRecv(fk)]; ok {
-					c.Hold("C10.D1", key+"#range", p.Pos(x.Pos()), "map iteration justified by hand: "+why, nil)
-					continue
-				}
 				if ok, why := collectThenSort(x); ok {
 					c.Hold("C10.D1", key+"#range", p.Pos(x.Pos()), "map iteration only collects keys which are sorted before any other use ("+why+")", nil)
+				} else if invariantOnly(m, g, fn) {
+					if ok2, why2 := slotPerKeyLoop(x); ok2 {
+						c.Hold("C10.D1", key+"#range", p.Pos(x.Pos()), "map iteration in code reachable only from the registered invariants; each iteration writes only the map slot of its own key, local variables and the message / verdict, never returns 'not broken' from inside the loop and calls nothing that writes state: the verdict cannot depend on the order, only the text of the crisis message can", nil)
+					} else {
+						c.Violate("C10.D1", key+"#range", p.Pos(x.Pos()), "map iteration in an invariant whose verdict may depend on the iteration order ("+why2+")", nil)
+					}
 				} else {
 					c.Violate("C10.D1", key+"#range", p.Pos(x.Pos()), "map iteration in the consensus closure whose order can reach state, events, results or errors ("+why+"); reached via "+g.PathTo(fn), nil)
 				}
@@ -270,8 +379,6 @@ func lintDeterminism(c *Ctx, m *Model, g *Graph, fn *ssa.Function, total map[str
 		}
 	}
 }
-
-func shortFnNoRecv(fk string) string { return fk }
 
 // rootGlobal follows FieldAddr/IndexAddr/loads to a *ssa.Global.
 func rootGlobal(v ssa.Value) *ssa.Global {
